@@ -198,3 +198,14 @@ META["C09"] = {
         "the lifetime facet (deserialize_eps results cannot outlive their buffer) is rustc's; it is observed by the probe crates probes/eps_outlive (must not compile) and probes/escape_static",
     ],
 }
+
+META["C08"]["probes"] = [
+    {"name": "send_sync", "class": "C08/memcase-not-send-sync", "bins": [("send_sync", "compiles")], "expect": "compiles"},
+]
+META["C09"]["probes"] = [
+    {"name": "eps_outlive", "class": "C09/eps-result-outlives-buffer", "control": "control", "expect": "fails",
+     "error_pattern": r"E0515|E0597|E0505|does not live long enough|borrowed value",
+     "bins": [("control", "compiles"), ("outlive_return", "fails"), ("outlive_scope", "fails"), ("outlive_field", "fails"), ("outlive_drop", "fails")]},
+    {"name": "escape_static", "class": "C09/escape-observation", "expect": "observe",
+     "bins": [("escape_deref", "observe"), ("escape_asref", "observe")]},
+]
